@@ -9,7 +9,7 @@ from .. import core, tlc, registry, interp
 from .common import generic_replay
 
 SLOW = {"riemann.ep_riemann.GenEOS_Solver", "radshocks.nED_radshocks.ED_Solver", "guderley.guderley.Guderley"}
-TEMPLATE_ONLY = {"riemann.ep_riemann.GenEOS_Solver@JWL"}      # slow: systematic templates only, not in the random behaviours
+TEMPLATE_ONLY = {"riemann.ep_riemann.GenEOS_Solver@JWL", "sedov.sedov.Sedov@vacuum"}      # slow: systematic templates only, not in the random behaviours
 
 
 def gen_module(wd, name, classes, extends, emit):
